@@ -50,6 +50,11 @@ def run(chk, tier):
     chk.floor("R-PURE", "consulting functions examined", n, 100)
     chk.rule("R-REFRESH", "each lazily refreshed cache kind is refreshed by hwloc_topology_refresh() and by the tail of hwloc_topology_load() under its own NO_* flag")
     threads.refresh_complete(chk, P)
+    chk.rule("R-INITFINI", "the process-wide component reference count is released only by a holder: every hwloc_components_fini() is preceded on every path in its function by a call that took a reference, "
+             "or sits in a frozen owner that tears its topology down (an unbalanced release tears the components down under another thread's live topology)")
+    import refcount
+    nrf = refcount.run(chk, P)
+    chk.floor("R-INITFINI", "release sites of the component reference count", nrf, 5)
     chk.rule("R-LOCK", "lockset dataflow on components.c: balanced lock/unlock on all paths, every write of the process-wide registry with the mutex held")
     nl, G, locked = threads.lock_discipline(chk, P, E)
     chk.floor("R-LOCK", "registry write/call sites", nl, 10)
@@ -57,7 +62,8 @@ def run(chk, tier):
     entries = [nm for nm in sorted(api) if nm in E.sum]
     ns = threads.static_state(chk, P, E, entries, sw, locked_globals=set(G) | set(LOCKED_EXTRA))
     chk.floor("R-STATIC", "static-storage variables written from the public API", ns, 5)
-    chk.decided += ["concurrent readers on a refreshed topology have no data races on topology memory (no write reachable from the consulting API)",
+    chk.decided += ["distinct topologies do not interfere through the component registry's reference count (no release without a reference on any path)",
+                    "concurrent readers on a refreshed topology have no data races on topology memory (no write reachable from the consulting API)",
                     "refresh()/load() make every lazily refreshed cache valid", "the component registry is only written under its mutex",
                     "all other static-storage writes reachable from the API are enumerated (known findings)"]
     chk.undecided += ["libxml2 / libc (getenv, uselocale) internal thread safety", "same results as a single-threaded run (implied by purity for pure functions)"]
